@@ -90,6 +90,17 @@ def check_one(u, encoding, res, seen, tag):
                         v = 'parsing the normalised form changes %s: %r -> %r' % (
                             attr, getattr(ui, attr), getattr(ui2, attr))
                         break
+    if v is None and encoding != 'utf-8':
+        # the normal form is pure ASCII: it is what the URL table stores and what is parsed
+        # again (with the default encoding) when the row is fetched
+        try:
+            n3 = URLInfo.parse(n).url
+        except ValueError as e:
+            v = 'normalised form is rejected when parsed with the default encoding: %s' % e
+        else:
+            if n3 != n:
+                v = ('not idempotent: parsed again with the default encoding it normalises '
+                     'to %r' % n3)
     if v:
         cls = re.sub(r"'[^']*'|%[0-9A-Fa-f]{2}", 'X', v)[:50]
         sig = 'C10:%s:%s' % (cls, shape(u))
